@@ -68,6 +68,22 @@ func (c *Chain) notifAbs() notifState {
 	return st
 }
 
+// emitResolve: the names the other modules hand to rns.Resolve are taken from the chain as oracle inputs of their
+// models; each such resolution is also put to the rns model (Canine/Query/Rns.lean: resolve) as a query record of
+// its own, on the rns state of that moment, so that the oracle is checked on exactly the names in use.
+func (c *Chain) emitResolve(out *Emitter, hi, i int, name string, tracked []string) {
+	extraAddrs = []string{name}
+	var resp interface{} = "err"
+	if a, err := c.A.RnsKeeper.Resolve(c.Ctx(), name); err == nil {
+		resp = map[string]interface{}{"addr": map[string]interface{}{"a": a.String()}}
+	}
+	st := c.rnsAbs(tracked)
+	extraAddrs = nil
+	out.Emit(map[string]interface{}{"mod": "query", "sub": "rns", "hist": hi, "i": i, "h": c.H, "state": st,
+		"q": map[string]interface{}{"resolve": map[string]interface{}{"name": name, "lname": strings.ToLower(name)}}, "resp": resp})
+	out.Count("query.rns.resolve", resp != "err")
+}
+
 func (c *Chain) resolveJ(s string) interface{} {
 	a, err := c.A.RnsKeeper.Resolve(c.Ctx(), s)
 	if err != nil {
@@ -105,6 +121,9 @@ func runNotif(seed int64, histories, steps int, out *Emitter) {
 				{Name: "alice", Tld: "jkl", Expires: 1 << 40, Value: users[0].String(), Data: "{}", Subdomains: []*rnstypes.Names{}},
 				{Name: "bobby", Tld: "jkl", Expires: 1 << 40, Value: users[1].String(), Data: "{}", Subdomains: []*rnstypes.Names{}},
 				{Name: "broken", Tld: "jkl", Expires: 1 << 40, Value: "not-an-address", Data: "{}", Subdomains: []*rnstypes.Names{}},
+				// a label that ends in letters of its TLD, next to the label without them
+				{Name: "carl", Tld: "jkl", Expires: 1 << 40, Value: users[2].String(), Data: "{}", Subdomains: []*rnstypes.Names{}},
+				{Name: "car", Tld: "jkl", Expires: 1 << 40, Value: users[3].String(), Data: "{}", Subdomains: []*rnstypes.Names{}},
 			}
 			gs[rnstypes.ModuleName] = a.AppCodec().MustMarshalJSON(g)
 			if hi%3 == 2 {
@@ -122,7 +141,7 @@ func runNotif(seed int64, histories, steps int, out *Emitter) {
 		for _, u := range c.Users {
 			actors = append(actors, u.String())
 		}
-		targets := append(append([]string{}, actors...), "alice.jkl", "bobby.jkl", "broken.jkl", "nobody.jkl", "", "garbage")
+		targets := append(append([]string{}, actors...), "alice.jkl", "bobby.jkl", "broken.jkl", "nobody.jkl", "", "garbage", "carl.jkl", "car.jkl")
 		c.Begin(6 * time.Second)
 		type sent struct {
 			to, from string
@@ -189,6 +208,7 @@ func runNotif(seed int64, histories, steps int, out *Emitter) {
 				}
 				msg = &notiftypes.MsgCreateNotification{Creator: spell(creator), To: to, Contents: contents, PrivateContents: []byte(priv)}
 				op = map[string]interface{}{"create": map[string]interface{}{"creator": creator, "toRaw": to, "resolved": c.resolveJ(to), "contents": contents, "priv": priv, "jsonOk": jsonValid(contents)}}
+				c.emitResolve(out, hi, i, to, actors)
 				if a, err := c.A.RnsKeeper.Resolve(c.Ctx(), to); err == nil {
 					log = append(log, sent{a.String(), creator, now})
 				}
@@ -229,6 +249,7 @@ func runNotif(seed int64, histories, steps int, out *Emitter) {
 					}
 					tb = append(tb, t)
 					tj = append(tj, []interface{}{t, c.resolveJ(t)})
+					c.emitResolve(out, hi, i, t, actors)
 				}
 				msg = &notiftypes.MsgBlockSenders{Creator: spell(creator), ToBlock: tb}
 				op = map[string]interface{}{"block": map[string]interface{}{"creator": creator, "targets": tj}}
